@@ -81,6 +81,9 @@ def scenarios(c):
 
 def run(c):
     c.mc_bg('SysTools')
+    c.mc_bg('SysSum')
+    c.mc_bg('SysSum', 'SysSumNegList', must_fail=True)      # a failed read of the checksum list taken for end of file must be refuted
+    c.mc_bg('SysSum', 'SysSumNegOut', must_fail=True)       # never looking at standard output must be refuted
     c.mc_bg('SysTools', 'SysToolsNegRead', must_fail=True)  # "the first short read is the end of the stream" must be refuted
     c.mc_bg('SysTools', 'SysToolsNeg', must_fail=True)      # the "!safe_file_write()" convention with -1 on error must be refuted
     c.assumptions += ['the process model abstracts cryptography (authentic / modified flags) and the 8192-round PBKDF2; the real binaries are judged on exit status, existence of the output file and byte equality of the round trip',
